@@ -2008,6 +2008,12 @@ func createRoutingKey(routingKeyInfo *routingKeyInfo, values []interface{}) ([]b
 		return nil, nil
 	}
 
+	for _, idx := range routingKeyInfo.indexes {
+		if idx < 0 || idx >= len(values) {
+			return nil, fmt.Errorf("gocql: routing key needs bound value %d, got %d values", idx, len(values))
+		}
+	}
+
 	if len(routingKeyInfo.indexes) == 1 {
 		// single column routing key
 		routingKey, err := Marshal(
